@@ -385,8 +385,11 @@ fn drain_with_traces(rec: &RRecord, a: usize, b: usize) -> RRecord {
 pub fn minimise(rec: &RRecord, class: &str, budget: usize) -> (RRecord, usize) {
     let mut best = rec.clone();
     let mut evals = 0usize;
+    // wall-clock cap per violation class: minimisation is a convenience, the verdict does not
+    // depend on it (long inputs in the debug profile cost a tenth of a second per candidate)
+    let deadline = std::time::Instant::now() + std::time::Duration::from_secs(25);
     let mut still = |cand: &RRecord, evals: &mut usize| -> Option<Violation> {
-        if *evals >= budget {
+        if *evals >= budget || std::time::Instant::now() > deadline {
             return None;
         }
         if !lawful(&cand.input, &cand.script) {
@@ -593,7 +596,7 @@ pub fn minimise(rec: &RRecord, class: &str, budget: usize) -> (RRecord, usize) {
         }
 
         let after = (best.input.len(), best.script.len(), best.traces.iter().map(|t| t.events.len()).sum::<usize>());
-        if after == before || evals >= budget {
+        if after == before || evals >= budget || std::time::Instant::now() > deadline {
             break;
         }
     }
